@@ -7,7 +7,7 @@ from rdflib.namespace import XSD
 
 from pyshacl.consts import SH_construct
 from pyshacl.errors import ReportableRuntimeError, RuleLoadError
-from pyshacl.helper import get_query_helper_cls
+from pyshacl.helper import get_query_helper_cls, query_from_shapes_graph
 from pyshacl.rdfutil import clone_graph
 
 from ..shacl_rule import SHACLRule
@@ -92,7 +92,9 @@ class SPARQLRule(SHACLRule):
                     if found_this:
                         init_bindings['this'] = a
                     c = self._qh.apply_prefixes(c)
-                    results = data_graph.query(c, initBindings=init_bindings)
+                    results = query_from_shapes_graph(
+                        data_graph, c, init_bindings, RuleLoadError, "The sh:construct of a SPARQL rule"
+                    )
                     if results.type != "CONSTRUCT":
                         raise ReportableRuntimeError("Query executed by a SHACL SPARQLRule must be CONSTRUCT query.")
                     this_added = False
